@@ -14,6 +14,7 @@ import (
 	"os/exec"
 	"path/filepath"
 	"runtime"
+	"runtime/coverage"
 	"sort"
 	"strconv"
 	"strings"
@@ -28,8 +29,8 @@ import (
 
 type checkFn func(c *runCtx)
 
-var vChecks = map[string]checkFn{}       //nolint:gochecknoglobals
-var vReplayers = map[string]replayFn{}   //nolint:gochecknoglobals
+var vChecks = map[string]checkFn{}     //nolint:gochecknoglobals
+var vReplayers = map[string]replayFn{} //nolint:gochecknoglobals
 type replayFn func(c *runCtx, raw json.RawMessage) (observation string)
 
 func registerCheck(id string, f checkFn) { vChecks[id] = f }
@@ -291,12 +292,12 @@ func TestVerifMain(t *testing.T) {
 	f, ok := vChecks[prop]
 	if !ok {
 		fmt.Printf("ENGINE-ERROR: no check registered for %q\n", prop)
-		os.Exit(2)
+		vexit(2)
 	}
 	c := newRunCtx(t, prop)
 	f(c)
 	code := c.finish()
-	os.Exit(code)
+	vexit(code)
 }
 
 // TestVerifReplay re-executes a replay file twice and asserts identical observations.
@@ -320,7 +321,7 @@ func TestVerifReplay(t *testing.T) {
 	r, ok := vReplayers[doc.Property]
 	if !ok {
 		fmt.Printf("no replayer for %s; case: %s\n", doc.Property, doc.Case)
-		os.Exit(2)
+		vexit(2)
 	}
 	c := newRunCtx(t, doc.Property)
 	c.replayOnly = true
@@ -329,13 +330,13 @@ func TestVerifReplay(t *testing.T) {
 	fmt.Printf("recorded: %s\nreplay-1: %s\nreplay-2: %s\n", doc.Message, o1, o2)
 	if o1 != o2 {
 		fmt.Println("ENGINE-ERROR: replay is not deterministic")
-		os.Exit(2)
+		vexit(2)
 	}
 	if o1 != "" {
 		fmt.Printf("VIOLATION property=%s replay=%s\n", doc.Property, path)
-		os.Exit(1)
+		vexit(1)
 	}
-	os.Exit(0)
+	vexit(0)
 }
 
 // ---------------------------------------------------------------- helpers
@@ -479,7 +480,7 @@ func runSharded(c *runCtx, name string, body func(shard, shards int, sink *shard
 		f := os.NewFile(3, "sink")
 		_, _ = f.Write(append(raw, '\n'))
 		_ = f.Close()
-		os.Exit(0)
+		vexit(0)
 	}
 	n, _ := strconv.Atoi(os.Getenv("VERIF_WORKERS"))
 	if n <= 0 {
@@ -552,4 +553,13 @@ func childArgs(args ...string) []string {
 	}
 
 	return args
+}
+
+// vexit ends the process; in the coverage survey the counters are written first (os.Exit skips the test binary's own flush).
+func vexit(code int) {
+	if dir := os.Getenv("VERIF_COVER"); dir != "" {
+		_ = coverage.WriteMetaDir(dir)
+		_ = coverage.WriteCountersDir(dir)
+	}
+	os.Exit(code)
 }
